@@ -4,10 +4,10 @@ from . import common, refine, vocab, render, sig
 from .common import log
 
 SMALL_FAMS = ("F3a", "F3b", "F3c", "F4", "F4b", "F8f", "FG", "F5e", "FK", "F3e")
-ALL_FAMS = ["F1a", "F1b", "F1c", "F1d", "F1e", "F1f", "F1g", "F2a", "F2b", "F2c", "F2z", "F2s", "F3a", "F3b", "F3c", "F3d", "F4", "F4b", "F5a", "F5b", "F5c", "F5d", "F7a", "F7b", "F7c", "F8", "F8g", "F8f", "F8h", "F9", "FL", "FW", "FP", "FG", "FT", "F5e", "FK", "F1n", "F2d", "F7d", "F3e", "F5f", "F5g", "F5h", "F2e", "FO"]
+ALL_FAMS = ["F1a", "F1b", "F1c", "F1d", "F1e", "F1f", "F1g", "F2a", "F2b", "F2c", "F2z", "F2s", "F3a", "F3b", "F3c", "F3d", "F4", "F4b", "F5a", "F5b", "F5c", "F5d", "F7a", "F7b", "F7c", "F8", "F8g", "F8f", "F8h", "F9", "FL", "FW", "FP", "FG", "FT", "F5e", "FK", "F1n", "F2d", "F7d", "F3e", "F5f", "F5g", "F5h", "F3f", "F8i", "F2e", "FO"]
 # quick-tier sample size per family (the thorough tier takes every program of every family)
 QUICK_N = {"F1a": 500, "F1b": 250, "F1c": 150, "F1d": 250, "F1e": 100, "F1f": 250, "F1g": 100, "F2a": 400, "F2z": 60, "F2s": 60, "F2b": 63,
-           "F2c": 120, "F3a": 150, "F3b": 80, "F3c": 12, "F4": 26, "F5a": 200, "F5b": 120, "F5c": 200, "F5d": 40, "F3d": 50, "F4b": 60, "F7a": 84, "F7b": 250, "F7c": 200, "F8": 400, "F8g": 450, "F8f": 80, "F9": 350, "FL": 80, "FW": 10, "F4": 60, "F3d": 60, "F3b": 81, "F2c": 136, "FK": 10, "F5g": 20, "F5f": 30, "F5h": 105}
+           "F2c": 120, "F3a": 150, "F3b": 80, "F3c": 12, "F4": 26, "F5a": 200, "F5b": 120, "F5c": 200, "F5d": 40, "F3d": 50, "F4b": 60, "F7a": 84, "F7b": 250, "F7c": 200, "F8": 400, "F8g": 450, "F8f": 80, "F9": 350, "FL": 80, "FW": 10, "F4": 60, "F3d": 60, "F3b": 81, "F2c": 136, "FK": 10, "F5g": 20, "F5f": 30, "F5h": 105, "F3f": 48, "F8i": 81}
 
 
 SIGNED_PLAIN = [dict(name="pc", kind="s", w=8, sg=True, n=1), dict(name="pca", kind="a", w=8, sg=True, n=4)]
@@ -114,7 +114,7 @@ def c01(tier):
                                              code_tail=["%s %s" % (l["mn"], l["op"]) if l["k"] == "i" else l["op"] + ":" for l in ev["lines"] if l["k"] in "il"][-8:]) for ev in cand[:5]])
         if cids:
             pl2 = refine.Pipeline("c01fp", tier=tier)
-            pl2.run([c for c in cases if c["id"] in set(cids)], sem=True, pair=False, maxin=400, small_fams=SMALL_FAMS)
+            pl2.run([c for c in cases if c["id"] in set(cids)], sem=True, pair=False, maxin=48, small_fams=SMALL_FAMS)      # the cap of the known-findings baseline: no input beyond it
             nbad2 = judge(pl2, verdict, pid, finding_signatures(pid), bodies)
             layer2.update(candidates_executed_on_more_inputs=pl2.stats["programs"], inputs=pl2.stats["inputs"], candidates_confirmed=nbad2)
             st["states"] += pl2.stats["states"]
@@ -142,7 +142,7 @@ def c02(tier):
     pid = "C02"
     verdict = common.Verdict(pid)
     # the families built around the optimiser's beliefs are taken whole, the expression families thinner
-    progs, total = sample_programs(tier, name="c02", scale=0.7, quota={"F8": None, "F8g": None, "F8f": None, "F8h": None, "F5d": None, "F5e": None, "F5f": None, "F4b": None,
+    progs, total = sample_programs(tier, name="c02", scale=0.7, quota={"F8": None, "F8g": None, "F8f": None, "F8h": None, "F8i": None, "F3f": None, "F2d": None, "F5h": None, "F5d": None, "F5e": None, "F5f": None, "F4b": None,
                                                                        "F1a": 200, "F1b": 100, "F1d": 100, "F2a": 150, "F1f": 120, "FP": 150})
     cases, bodies = [], {}
     for i, p in enumerate(progs):
